@@ -100,7 +100,21 @@ impl AssetExpr {
 #[derive(Serialize, Deserialize, Debug, Clone, PartialEq, Eq)]
 pub struct AdHocDirective {
     pub name: String,
+    #[serde(serialize_with = "serialize_sorted_by_key")]
     pub data: HashMap<String, Expression>,
+}
+
+/// Serializes the entries sorted by key so that the encoding doesn't depend on
+/// the (randomly seeded) iteration order of the hash map.
+fn serialize_sorted_by_key<S>(
+    data: &HashMap<String, Expression>,
+    serializer: S,
+) -> Result<S::Ok, S::Error>
+where
+    S: serde::Serializer,
+{
+    let sorted: std::collections::BTreeMap<_, _> = data.iter().collect();
+    sorted.serialize(serializer)
 }
 
 #[derive(Serialize, Deserialize, Debug, Clone, PartialEq, Eq)]
